@@ -269,3 +269,19 @@ Theorem C16_set_selection_rows : forall (E Ea E' : name -> buf) names sl len ale
       end.
 Proof. exact set_selection_rows. Qed.
 Print Assumptions C16_set_selection_rows.
+
+(* the constructor's field filter, as translated from the source
+   `(keep_fields is not None) and (fname not in keep_fields)`, is the model's skip test;
+   hence (C16_ctor_closed) an EMPTY keep_fields keeps no field and None keeps all. *)
+Theorem C16_keep_filter_kernel : forall keep fname,
+  ctor_keep_given (keep_flag keep) && ctor_not_in_keep fname (keep_list keep)
+  = match keep with Some k => negb (mem fname k) | None => false end.
+Proof. exact K_ctor_keep_filter. Qed.
+Print Assumptions C16_keep_filter_kernel.
+
+Theorem C16_keep_none_keeps_all : forall src length conv exc copy, 0 <= length ->
+  (forall c, In c src -> blen (snd c) = length) -> NoDup (keys src) ->
+  v_ctor src length None conv exc copy =
+    Ok (mkat (map (conv1 conv exc) src) (match src with [] => 0 | _ => length end) false).
+Proof. exact keep_none_keeps_all. Qed.
+Print Assumptions C16_keep_none_keeps_all.
